@@ -50,8 +50,9 @@ def _work(seed):
     for lv in spec["levels"]:  # direction-blind local stop conditions only
         if lv["lsc"]["kind"] == "FitnessSteadiness":
             lv["lsc"] = {"kind": "MetaepochLimit", "n": 3}
-    a = rec.run_spec(spec)
-    b = rec.run_spec(twin_spec(spec))
+    with common.time_limit(2 * common.RUN_LIMIT):
+        a = rec.run_spec(spec)
+        b = rec.run_spec(twin_spec(spec))
     da, db = digest(a), digest(b)
     res = {"seed": seed, "spec": spec, "engines": engines, "n_events": len(da), "demes": sum(1 for x in da if x[0] == "new"), "diff": None,
            "cut": any(e["e"] == "stage" and e["name"] == "tree:LevelLimit" for e in a["events"])}
